@@ -18,6 +18,37 @@ pub struct Case {
     pub core_route: bool,
 }
 
+/// very many seeds, shallow (see C03): one case = a batch of counter-derived seeds, 20 words each
+#[derive(Clone, Debug, Serialize, Deserialize)]
+pub struct ManyCase {
+    pub start: u64,
+    pub count: u32,
+}
+
+pub fn check_many(c: &ManyCase) -> CheckResult {
+    let mut seed = [0u8; 32];
+    for k in 0..c.count as u64 {
+        let mut z = c.start.wrapping_add(k).wrapping_mul(0x9e3779b97f4a7c15);
+        for w in 0..4 {
+            z = z.wrapping_add(0x9e3779b97f4a7c15);
+            let mut x = z;
+            x = (x ^ (x >> 30)).wrapping_mul(0xbf58476d1ce4e5b9);
+            x = (x ^ (x >> 27)).wrapping_mul(0x94d049bb133111eb);
+            x ^= x >> 31;
+            seed[8 * w..8 * w + 8].copy_from_slice(&x.to_le_bytes());
+        }
+        let mut g = adapter::from_seed(Ty::Hc128, &seed);
+        let mut m = Hc128::from_seed(&seed);
+        for pos in 0..20 {
+            let (got, want) = (g.next_u32(), m.next());
+            if got != want {
+                return Err(Fail::new("C02:keystream:rng", format!("seed {} (number {} of the batch): stream position {} differs from HC-128", crate::hexser::hex(&seed), k, pos)).exp_act(format!("{:#010x}", want), format!("{:#010x}", got)));
+            }
+        }
+    }
+    Ok(CaseInfo::new(c.count > 0).class("many-seeds-shallow"))
+}
+
 pub fn check(c: &Case) -> CheckResult {
     let mut m = Hc128::from_seed(&c.seed.bytes);
     let route = if c.core_route { "core" } else { "rng" };
@@ -98,11 +129,13 @@ pub fn def(ctx: &Ctx) -> PropDef {
     }, check));
     // beyond 2^16 blocks = 2^20 words (counter-width boundaries)
     let long = t.pick(1_200_000usize, 20_000_000);
+    // 2^17 (thorough 2^23) seeds, twenty words each (HC-128's key set-up is 1 280 + 1 024 steps)
+    subs.push(PSub::boxed("many-seeds", t.pick(64, 4096), || any::<u64>().prop_map(|start| ManyCase { start, count: 2048 }).boxed(), check_many));
     subs.push(PSub::boxed("long/rng", t.pick(6, 24), move || hc_seed().prop_map(move |seed| Case { seed, depth: long, core_route: false }).boxed(), check));
     subs.push(PSub::boxed("long/core", t.pick(6, 24), move || hc_seed().prop_map(move |seed| Case { seed, depth: long, core_route: true }).boxed(), check));
     PropDef {
         id: "C02",
-        rule: "cases = 32-byte seed (uniform, sparse, dense, special words, single non-zero byte at every position, key-only / IV-only / distinct key and IV words, zero, crate test seeds) x depth {16; 64; 560 (P->Q); 1100 (table wrap); 2300; random; long runs} x route {Hc128Rng::next_u32, Hc128Core::generate}; every keystream word is compared with the array-form HC-128 of Wu's specification. Non-trivial = >=2 non-zero seed bytes, depth > 16, not a crate test seed; distinct by hash of (seed, depth, route).".into(),
+        rule: "cases = 32-byte seed (uniform, sparse, dense, special words, single non-zero byte at every position, key-only / IV-only / distinct key and IV words, zero, crate test seeds) x depth {16; 64; 560 (P->Q); 1100 (table wrap); 2300; random; long runs} x route {Hc128Rng::next_u32, Hc128Core::generate}; every keystream word is compared with the array-form HC-128 of Wu's specification. Non-trivial = >=2 non-zero seed bytes, depth > 16, not a crate test seed; distinct by hash of (seed, depth, route). many-seeds: 64 (thorough 4096) batches of 2048 counter-derived seeds, first twenty words each against the specification (2^17, thorough 2^23 key set-ups; one batch counts as one evaluation).".into(),
         explanation: None,
         assumptions: vec!["refmodel::hc128 implements Wu's specification (validated at start-up on the three vectors of the paper and on vectors of the independent Python model, incl. 2200-word streams)".into()],
         subs,
